@@ -27,6 +27,10 @@ CLAIMS = {
    text="Proof (Coq): the specification is a map keyed by the full (exporter address, template id) (latest-insertion and frame lemmas); the concrete 32-shard, FNV-indexed cache refines it (insert/retrieve, via injectivity of the address||id key); the IPFIX and v9 decoders are proved parametric in the cache, so on EVERY history the outputs against the concrete cache equal the outputs against the abstract map; exporter isolation: an exporter's outputs within any history equal its outputs when its datagrams are decoded alone; unknown template => no records + non-fatal report. Tie: multi-exporter histories (overlapping ids, re-announcements, data before/after announcement, 4/16-byte forms, near-identical IPv6 exporters, FNV-colliding pairs found by a seeded birthday search) against the real decoders and caches, plus an independent Python oracle.",
    note="Trusted: Coq kernel; hand models (correspondence); hash/fnv modelled in Cache.v (sampled through shard selection only - after the fix the hash no longer affects lookup results); the Go map is modelled as an association list. Closed under the global context.",
    technique="Coq refinement proof (concrete sharded cache vs abstract map) lifted to histories by a parametricity lemma + differential correspondence"),
+ "C11": dict(
+   text="Proof (Coq): over EVERY parsed cache document (any number of shards, null shards, null maps, any keys/templates, any ShardNo) and the no-document case (absent, empty, unparsable, crash prefix), the loaded cache is well-formed (hence, with C01, every history decoded with it neither panics nor hangs), contains only templates that are in the file, and save-then-load of any well-formed cache is the identity (so every exporter's data decodes exactly as before). Tie: the real Dump/GetCache on caches reached by decoding, EVERY proper prefix of each saved file, structured documents generated from the document type (incl. well-formed JSON with type/range errors), byte-level mutations, absent/empty/directory paths, a smaller cache saved over a larger file; contents observed through Dump, usability by announcing and decoding after the load.",
+   note="Trusted: Coq kernel; hand model of GetCache/Dump over the parsed document (correspondence); encoding/json (round trip of memCacheDisk; rejection of every proper prefix - an explicit assumption validated on every prefix of every sampled file); file-system semantics of ioutil.WriteFile. Closed under the global context.",
+   technique="Coq proof over all parsed documents (total well-formedness, subset, round trip) + crash-prefix enumeration and structural corruption on the implementation"),
 }
 REASON_TODO = "check under construction in this build session (not yet claimed)"
 props = [json.loads(l) for l in open(os.path.join(ROOT, "properties.jsonl"))]
